@@ -280,7 +280,7 @@ class Interp:
     def concretize(self, v, why):
         """enumerate feasible values of a symbolic scalar by forking"""
         if not isinstance(v, Sym): return v
-        d = self.decide_value(v, why)
+        d = self.decide_value(v, why, cap=256 if why == 'symbolic address' else 64)
         return d
 
     def store_bytes(self, o, off, size, v):
